@@ -54,7 +54,10 @@ OutcomeAllowed(kind, k, n, reject, outcome, leak, hits, probeOutcome, ev, pev) =
   /\ leak = 0                                      \* nothing is leaked, everything stayed destructible
   /\ IF outcome = "none" /\ probeOutcome = "none" /\ kind # "failat"
      THEN ev = pev                                 \* a run that completes delivered exactly what the fault-free run delivers
-     ELSE kind = "failat" \/ IsPrefix(ev, pev)     \* what was delivered before the failure is what the fault-free run delivers
+     ELSE kind \in {"failat", "throwat"} \/ IsPrefix(ev, pev)
+          \* what was delivered before the failure is what the fault-free run delivers (when the INPUT ends or fails, the item at
+          \* the cut may be decoded from incomplete data - e.g. a cropped character replaced by the error mark - before the
+          \* failure is reported: left open)
   /\ CASE kind = "alloc" -> IF Hits(k, n) THEN outcome = "exception" ELSE outcome = probeOutcome
        [] kind \in {"ofailat", "othrowat"} -> IF Hits(k, n) THEN outcome = "exception"          \* a failed write is an error
                                               ELSE outcome = probeOutcome
@@ -67,7 +70,7 @@ OutcomeAllowed(kind, k, n, reject, outcome, leak, hits, probeOutcome, ev, pev) =
 Why(kind, k, n, reject, outcome, leak, hits, probeOutcome, ev, pev) ==
   IF outcome \notin {"none", "exception"} THEN outcome
   ELSE IF leak # 0 THEN "leak"
-  ELSE IF kind # "failat" /\ ~IsPrefix(ev, pev) THEN "the run delivered something the fault-free run does not deliver"
+  ELSE IF kind \notin {"failat", "throwat"} /\ ~IsPrefix(ev, pev) THEN "the run delivered something the fault-free run does not deliver"
   ELSE IF kind # "failat" /\ outcome = "none" /\ probeOutcome = "none" /\ ev # pev THEN "the run completed but delivered less than the fault-free run"
   ELSE IF outcome = "none" THEN "fault did not reach the caller as an exception"
   ELSE "unreached fault point changed the outcome"
